@@ -320,7 +320,7 @@ Non-trivial = the suspend was processed while the transaction was still active a
         },
     );
     ctx.section = "sampled-any-configuration".into();
-    let n = ctx.tier.pick(20_000u64, 300_000);
+    let n = ctx.tier.pick(20_000u64, 1_500_000);
     ctx.drive_proptest(&part, strat, n, 200);
     ctx.section.clear();
 }
